@@ -357,35 +357,85 @@ def check_legality_matrix(ctx):
         if k not in branches:
             raise AnalysisError(f"C14.4: branch for dim type `{k}` not found")
 
-    def guarded_raises(stmts, prefix=()):
-        out = set()
-        for x in stmts:
-            if isinstance(x, ast.If) and isinstance(x.test, ast.Name):
-                inner = [y for y in x.body if isinstance(y, ast.Raise)]
-                if inner:
-                    ok = isinstance(inner[0].exc, ast.Call) and norm(inner[0].exc.func) == "ValueError"
-                    out.add((prefix + (x.test.id,), ok))
-                out |= guarded_raises([y for y in x.body if isinstance(y, ast.If)], prefix + (x.test.id,))
-        return out
+    def flag_of(t):
+        """`variadic` / `mods.variadic`: the modifier flag a test reads (a local or a field of a record)"""
+        if isinstance(t, ast.Name):
+            return t.id
+        if isinstance(t, ast.Attribute) and isinstance(t.value, ast.Name):
+            return t.attr
+        return None
+
+    FLAGS = ("broadcastable", "variadic", "anonymous", "treepath")
+    from ..absim import eval_bool
+    import itertools as _it
+
+    def outcomes(stmts, val):
+        """Set of outcomes ('raise:ValueError' | 'raise:other' | 'pass') of a branch body for one
+        valuation of the four flags; conditions on anything else are explored both ways."""
+        def atom(e):
+            fl = flag_of(e)
+            if fl in val:
+                return val[fl]
+            return None
+
+        def run(block):
+            outs = set()
+            for i, x in enumerate(block):
+                if isinstance(x, ast.Raise):
+                    ok = isinstance(x.exc, ast.Call) and norm(x.exc.func) == "ValueError"
+                    return {"raise:ValueError" if ok else "raise:other"}
+                if isinstance(x, ast.If):
+                    v = eval_bool(x.test, atom)
+                    res = set()
+                    for side, taken in ((x.body, v is not False), (x.orelse, v is not True)):
+                        if taken:
+                            res |= run(side)
+                    if "pass" not in res:
+                        return outs | res
+                    outs |= res - {"pass"}
+                    continue
+                if isinstance(x, ast.Assert) and isinstance(x.test, ast.Constant) and not x.test.value:
+                    return outs | {"raise:other"}
+                if isinstance(x, (ast.Try, ast.While, ast.For, ast.With, ast.Return, ast.Continue, ast.Break)):
+                    raise AnalysisError(f"C14.4: statement `{short(x, 50)}` in a dim-type branch is outside what the legality table can interpret")
+            return outs | {"pass"}
+
+        return run(stmts)
 
     n = 0
     for k, ref in REFERENCE.items():
-        got = guarded_raises(branches[k])
-        got_keys = set()
-        for key, ok in got:
-            kk = key[0] if len(key) == 1 else key
-            got_keys.add(kk)
-            if not ok:
-                ctx.bad("C14.4", f, branches[k][0], f"the illegal combination {k} + {key} is not rejected with ValueError")
-        n += len(ref)
-        for missing in ref - got_keys:
-            ctx.bad("C14.4", f, f.node, f"a {k} axis with the modifier(s) `{missing}` is no longer rejected when the annotation is built (the reference table demands ValueError)",
-                    construct=f"legality: {k} x {missing} accepted")
-        for extra in got_keys - ref:
-            ctx.bad("C14.4", f, f.node, f"a {k} axis with the modifier(s) `{extra}` is rejected although the documented language allows it",
-                    construct=f"legality: {k} x {extra} rejected")
-        if not (ref - got_keys) and not (got_keys - ref):
-            ctx.ok("C14.4", f.qualname, f"{k}: rejects exactly {sorted(map(str, ref))}")
+        wrong_acc, wrong_rej, not_ve = [], [], []
+        for bits in _it.product((False, True), repeat=4):
+            val = dict(zip(FLAGS, bits))
+            must = any(all(val[x] for x in (key if isinstance(key, tuple) else (key,))) for key in ref)
+            got = outcomes(branches[k], val)
+            n += 1
+            on = tuple(fl for fl in FLAGS if val[fl])
+            if got == {"pass"}:
+                if must:
+                    wrong_acc.append(on)
+            elif "pass" not in got:
+                if not must:
+                    wrong_rej.append(on)
+                elif got != {"raise:ValueError"}:
+                    not_ve.append(on)
+            else:
+                raise AnalysisError(f"C14.4: whether a {k} axis with modifiers {on} is rejected depends on a condition the table cannot evaluate")
+        # report per reference key (minimal combinations), as before
+        for key in ref:
+            kk = key if isinstance(key, tuple) else (key,)
+            if any(set(kk) <= set(on) for on in wrong_acc) and tuple(x for x in FLAGS if x in kk) in [tuple(x for x in FLAGS if x in on and x in kk) for on in wrong_acc]:
+                ctx.bad("C14.4", f, f.node, f"a {k} axis with the modifier(s) `{key}` is no longer rejected when the annotation is built (the reference table demands ValueError)",
+                        construct=f"legality: {k} x {key} accepted")
+        for on in not_ve:
+            ctx.bad("C14.4", f, branches[k][0], f"the illegal combination {k} + {on} is not rejected with ValueError")
+            break
+        if wrong_rej:
+            extra = min(wrong_rej, key=len)
+            ctx.bad("C14.4", f, f.node, f"a {k} axis with the modifier(s) `{extra[0] if len(extra) == 1 else extra}` is rejected although the documented language allows it",
+                    construct=f"legality: {k} x {extra[0] if len(extra) == 1 else extra} rejected")
+        if not wrong_acc and not wrong_rej and not not_ve:
+            ctx.ok("C14.4", f.qualname, f"{k}: rejects exactly {sorted(map(str, ref))} (16 flag valuations)")
     ctx.counters["legality_cells"] = n
     # other documented illegal forms
     txt_checks = [
@@ -418,6 +468,20 @@ def check_legality_matrix(ctx):
     for s in ast.walk(f.node):
         if isinstance(s, ast.If) and norm(s.test) == "'...' in elem":
             sets = {norm(a.targets[0]): a.value.value for a in s.body if isinstance(a, ast.Assign) and isinstance(a.value, ast.Constant)}
+            # the flags may be set through a record: `mods = _Mods(variadic=True, ...)` / a module constant bound to one
+            for a in s.body:
+                if isinstance(a, ast.Assign) and len(a.targets) == 1 and isinstance(a.targets[0], ast.Name):
+                    v = a.value
+                    if isinstance(v, ast.Name):
+                        b_ = m.resolve_name(f, v.id)
+                        if b_.kind == "modvar":
+                            vals_ = b_.target[0].assigns.get(b_.target[1], [])
+                            v = vals_[0] if len(vals_) == 1 else v
+                    if isinstance(v, ast.Call) and v.keywords and all(isinstance(k.value, ast.Constant) for k in v.keywords) and not v.args:
+                        for k in v.keywords:
+                            sets.setdefault(k.arg, k.value.value)
+            if "variadic" not in sets or "anonymous" not in sets:
+                raise AnalysisError("C14.4: how the `...` token sets the variadic / anonymous flags was not recognised")
             if not (sets.get("variadic") is True and sets.get("anonymous") is True):
                 ctx.bad("C14.4", f, s, "`...` is not treated as an anonymous multi-axis specifier (`*_`)")
             else:
